@@ -49,54 +49,72 @@ Theorem C20_error_drops_connection : forall (R : Type) conn (outs : list (outcom
 Proof. exact error_drops_connection. Qed.
 Print Assumptions C20_error_drops_connection.
 
-(* ---------- failure reporting, from the handler's point of view ---------- *)
+(* ---------- failure and success reporting, from the handler's point of view ---------- *)
+(* [isnull r]: the reply r is encoded as JSON null; [denull]: what the server methods do to a nil byte-slice
+   reply (faf0201); the handler's error is wrapped so that its message is never empty (ebb9c0a). *)
 
-(* FULL statement (false, see below): if the application handled none of the three attempts
-   successfully, Babble gets an error. *)
-Definition C20_failure_reported_statement : Prop :=
-  forall (R : Type) (isnull : R -> bool) conn (l : list (attempt R)),
-    (forall a, In a (firstn 3 l) -> handled a = false) -> c_result (call_attempts isnull conn l) = None.
-
-(* proved part: network faults at any position and handler errors with a non-empty message.
-   Missing: a handler error whose message is empty (net/rpc sends it as a result). *)
-Theorem C20_failure_reported_partial : forall (R : Type) (isnull : R -> bool) conn (l : list (attempt R)),
-  (forall a, In a (firstn 3 l) -> plain_failure R a = true) -> c_result (call_attempts isnull conn l) = None.
+(* If the application handled none of the three attempts successfully -- network faults at any position,
+   handler errors with ANY message, the empty one included -- Babble gets an error.  (Was refuted before
+   ebb9c0a: finding C20-empty-error-message-is-success.) *)
+Theorem C20_failure_reported : forall (R : Type) (isnull : R -> bool) (denull : R -> R) conn (l : list (attempt R)),
+  (forall a, In a (firstn 3 l) -> handled a = false) -> c_result (call_attempts isnull denull conn l) = None.
 Proof. exact failures_reported. Qed.
-Print Assumptions C20_failure_reported_partial.
+Print Assumptions C20_failure_reported.
 
-(* refuted on the faithful model: three attempts, the handler fails each time with an empty message and
-   returns the zero reply: Babble receives that empty reply as a success after ONE delivery.
-   FINDING C20-empty-error-message-is-success (replayed on the Go code by harness/cmd/proxy). *)
-Theorem C20_failure_reported_refuted :
-  exists l : list (attempt bytes),
-    (forall a, In a (firstn 3 l) -> handled a = false) /\
-    c_result (call_attempts bytes_null false l) = Some (Some []) /\
-    c_deliveries (call_attempts bytes_null false l) = 1%nat.
-Proof. exact (ex_intro _ _ empty_message_witness). Qed.
-Print Assumptions C20_failure_reported_refuted.
+(* A call that the application handles successfully in one of the three attempts, the earlier ones not being
+   handled, is a success for Babble with the application's reply -- also when that reply is a nil slice, which
+   arrives as the empty slice.  (Was refuted before faf0201: finding C20-nil-result-is-error.) *)
+Theorem C20_success_reported : forall (R : Type) (isnull : R -> bool) (denull : R -> R),
+  (forall r, isnull (denull r) = false) ->
+  forall conn (l : list (attempt R)) k r,
+  (k < 3)%nat -> nth_error l k = Some (APass (HOk r)) ->
+  (forall j, (j < k)%nat -> exists a, nth_error l j = Some a /\ handled a = false) ->
+  c_result (call_attempts isnull denull conn l) = Some (denull r).
+Proof. exact success_reported. Qed.
+Print Assumptions C20_success_reported.
 
-(* every success comes from an attempt whose handler ran and returned exactly that reply *)
-Theorem C20_success_source : forall (R : Type) (isnull : R -> bool) conn (l : list (attempt R)) r,
-  c_result (call_attempts isnull conn l) = Some r ->
-  exists k, (k < 3)%nat /\ isnull r = false /\
-    (nth_error l k = Some (APass (HOk r)) \/ nth_error l k = Some (APass (HErr true r))).
+(* without faults: exactly one delivery *)
+Theorem C20_success_first_attempt : forall (R : Type) (isnull : R -> bool) (denull : R -> R),
+  (forall r, isnull (denull r) = false) ->
+  forall conn r (rest : list (attempt R)),
+  c_result (call_attempts isnull denull conn (APass (HOk r) :: rest)) = Some (denull r) /\
+  c_deliveries (call_attempts isnull denull conn (APass (HOk r) :: rest)) = 1%nat.
+Proof. exact handled_first. Qed.
+Print Assumptions C20_success_first_attempt.
+
+(* the premise holds of the byte-slice replies (snapshot, state hash) *)
+Theorem C20_bytes_never_null : forall b, bytes_null (bytes_denull b) = false.
+Proof. exact bytes_denull_ok. Qed.
+Print Assumptions C20_bytes_never_null.
+
+(* every success comes from an attempt whose handler succeeded, and carries exactly its reply *)
+Theorem C20_success_source : forall (R : Type) (isnull : R -> bool) (denull : R -> R) conn (l : list (attempt R)) r,
+  c_result (call_attempts isnull denull conn l) = Some r ->
+  exists k r0, (k < 3)%nat /\ nth_error l k = Some (APass (HOk r0)) /\ r = denull r0 /\
+    forall j, (j < k)%nat -> exists a, nth_error l j = Some a /\ is_ok (outcome_of isnull denull a) = false.
 Proof. exact success_source. Qed.
 Print Assumptions C20_success_source.
 
-(* FULL statement (false): a call the application handled successfully is a success for Babble *)
-Definition C20_success_reported_statement : Prop :=
-  forall (R : Type) (isnull : R -> bool) conn (l : list (attempt R)),
-    (exists a r, l = a :: r /\ handled a = true) -> c_result (call_attempts isnull conn l) <> None.
+(* What remains true of net/rpc and Go's jsonrpc client by themselves (a server that hands the handler's return
+   to the library unchanged, as the code did before the two fixes, or as a non-Go application may): an error
+   with an empty message is a success with the zero reply, a null result is an error after three deliveries;
+   the same inputs through the server methods give an error resp. a success. *)
+Theorem C20_library_conventions_empty_message :
+  let l := [APass (HErr true (Some [])); APass (HErr true (Some [])); APass (HErr true (Some []))] in
+  c_result (call_attempts_raw bytes_null false l) = Some (Some []) /\
+  c_result (call_attempts bytes_null bytes_denull false l) = None /\
+  c_deliveries (call_attempts bytes_null bytes_denull false l) = 3%nat.
+Proof. exact empty_message_raw_and_fixed. Qed.
+Print Assumptions C20_library_conventions_empty_message.
 
-(* refuted: a handler returning a nil byte slice (GetSnapshot, Restore) -- JSON null -- is an error for
-   the client, after three deliveries.  FINDING C20-nil-result-is-error. *)
-Theorem C20_success_reported_refuted :
-  exists l : list (attempt bytes),
-    (forall a, In a l -> handled a = true) /\
-    c_result (call_attempts bytes_null false l) = None /\
-    c_deliveries (call_attempts bytes_null false l) = 3%nat.
-Proof. exact (ex_intro _ _ nil_reply_witness). Qed.
-Print Assumptions C20_success_reported_refuted.
+Theorem C20_library_conventions_nil_reply :
+  let l : list (attempt bytes) := [APass (HOk None); APass (HOk None); APass (HOk None)] in
+  c_result (call_attempts_raw bytes_null false l) = None /\
+  c_deliveries (call_attempts_raw bytes_null false l) = 3%nat /\
+  c_result (call_attempts bytes_null bytes_denull false l) = Some (Some []) /\
+  c_deliveries (call_attempts bytes_null bytes_denull false l) = 1%nat.
+Proof. exact nil_reply_raw_and_fixed. Qed.
+Print Assumptions C20_library_conventions_nil_reply.
 
 (* ---------- the field mapping ---------- *)
 
@@ -119,22 +137,45 @@ Theorem C20_roundtrip_transaction : forall b, bytes_ok b = true -> through_bytes
 Proof. exact roundtrip_tx. Qed.
 Print Assumptions C20_roundtrip_transaction.
 
-(* FULL statement without the premise on strings (false) *)
-Definition C20_roundtrip_statement : Prop :=
-  forall b, block_bytes_ok b = true -> through_block b = Some (strip_block b).
+(* peers.NewPeer (b2c4118) normalises address and moniker: whatever raw strings it is given, the result is
+   valid UTF-8 (the key being a hex string), normalising twice changes nothing, and the wire leaves such a
+   peer as it is.  (Before b2c4118 the creating node kept the raw bytes: finding
+   C20-invalid-utf8-string-sanitised.) *)
+Theorem C20_new_peer_valid : forall key net mon,
+  str_ok key = true -> peer_str_ok (new_peer key net mon) = true /\ wire_peer (new_peer key net mon) = new_peer key net mon.
+Proof. exact (fun key net mon H => conj (new_peer_ok key net mon H) (new_peer_wire key net mon H)). Qed.
+Print Assumptions C20_new_peer_valid.
 
-(* without the premise: what arrives is the sanitised view ... *)
+Theorem C20_to_valid_idempotent : forall s, str_ok (to_valid s) = true /\ to_valid (to_valid s) = to_valid s.
+Proof. exact (fun s => conj (to_valid_ok s) (to_valid_idem s)). Qed.
+Print Assumptions C20_to_valid_idempotent.
+
+(* Hence: every block (response) whose internal transactions carry peers made by NewPeer from ARBITRARY address
+   and moniker strings -- key and signature strings being the output of the hex / base-36 encoders -- reaches
+   the socket application with exactly the content the in-process application sees. *)
+Theorem C20_roundtrip_built_block : forall b,
+  block_bytes_ok b = true -> built_block b -> through_block b = Some (strip_block b).
+Proof. exact roundtrip_built_block. Qed.
+Print Assumptions C20_roundtrip_built_block.
+
+Theorem C20_roundtrip_built_response : forall c,
+  cresp_bytes_ok c = true -> built_cresp c -> through_cresp c = Some (strip_cresp c).
+Proof. exact roundtrip_built_cresp. Qed.
+Print Assumptions C20_roundtrip_built_response.
+
+(* for ANY strings: what arrives is the sanitised view ... *)
 Theorem C20_roundtrip_block_wire : forall b,
   block_bytes_ok b = true -> through_block b = Some (wire_block b).
 Proof. exact through_block_wire. Qed.
 Print Assumptions C20_roundtrip_block_wire.
 
-(* ... which differs for a moniker that is not valid UTF-8 (documented deviation D1) *)
-Theorem C20_roundtrip_refuted_invalid_utf8 :
+(* ... which still differs for a Peer that does NOT come from NewPeer or a JSON decode (a struct literal with a
+   stray byte in the moniker; the code builds no such peer: documented deviation D1, the harness's control case) *)
+Theorem C20_raw_peer_literal_changes :
   exists b, block_bytes_ok b = true /\ through_block b <> Some (strip_block b) /\
             through_block b = Some (wire_block b).
 Proof. exact (ex_intro _ bad_block invalid_utf8_witness). Qed.
-Print Assumptions C20_roundtrip_refuted_invalid_utf8.
+Print Assumptions C20_raw_peer_literal_changes.
 
 (* non-vacuity *)
 Definition ex_peer := mkPeer [Good 49; Good 50] [Good 48; Good 88] [Good 233; Good 128512] 77.
@@ -145,6 +186,11 @@ Definition ex_block :=
                   (Some [mkItx 0 ex_peer [Good 115]; mkItx 1 ex_peer []])
                   (Some [mkReceipt (mkItx 0 ex_peer [Good 115]) true]))
           (Some [([Good 48; Good 88], [Good 97])]) (Some [1]) [Good 65] true.
+Definition ex_built_block :=
+  mkBlock (mkBody 5 6 7 (Some []) None None (Some [Some [255]])
+                  (Some [mkItx 0 (new_peer [Good 48; Good 88] [Bad 255; Good 58] [Good 109; Bad 195; Bad 40]) [Good 50]])
+                  (Some [mkReceipt (mkItx 1 (new_peer [Good 48] [] [Bad 128]) []) false]))
+          (Some [([Good 48], [Good 49])]) None [] false.
 Example C20_example :
   block_bytes_ok ex_block = true /\ block_str_ok ex_block = true /\
   through_block ex_block = Some (strip_block ex_block) /\
@@ -153,5 +199,15 @@ Example C20_example :
   c_deliveries (call false [CallFail true; Timeout false; Ok 5]) = 2%nat /\
   c_dials (call false [CallFail true; Timeout false; Ok 5]) = 3%nat /\
   c_result (call true [DialFail; DialFail; DialFail; Ok 5]) = None /\
-  c_result (call_attempts bytes_null true [ADropReply; APass (HErr false None); APass (HOk (Some [1]))]) = Some (Some [1]).
-Proof. vm_compute. repeat split. Qed.
+  c_result (call_attempts bytes_null bytes_denull true [ADropReply; APass (HErr false None); APass (HOk (Some [1]))]) = Some (Some [1]) /\
+  c_result (call_attempts bytes_null bytes_denull true [ADropReply; APass (HErr true None); APass (HOk None)]) = Some (Some []) /\
+  c_result (call_attempts bytes_null bytes_denull false [APass (HErr true (Some [])); AStallReply; ADown; APass (HOk (Some []))]) = None /\
+  new_peer [Good 48] [Good 97; Bad 255; Bad 254; Good 98; Bad 128] [Bad 237; Bad 160; Bad 128] =
+    mkPeer [Good 97; Good 65533; Good 98; Good 65533] [Good 48] [Good 65533] 0 /\
+  built_block ex_built_block /\ through_block ex_built_block = Some (strip_block ex_built_block).
+Proof.
+  repeat match goal with |- _ /\ _ => split end; try (vm_compute; reflexivity).
+  unfold built_block, ex_built_block. cbn [bl_body bo_itxs bo_receipts bl_sigs norm_slice]. repeat split.
+  - intros t [H | []]. subst t. exists [Good 48; Good 88], [Bad 255; Good 58], [Good 109; Bad 195; Bad 40]. repeat split.
+  - intros r [H | []]. subst r. exists [Good 48], [], [Bad 128]. repeat split.
+Qed.
